@@ -7,7 +7,7 @@ ID = 'C15'
 HARNESS_BIN = 'c15'
 RUN_MODULE = 'Run.C15'
 REPO_BINS = ['sccache']
-THEOREMS = ['C15_frozen', 'C15_frozen_requests', 'C15_writes_refused', 'C15_hits_served', 'C15_hits_served_always', 'C15_concurrent_lookups_served', 'C15_miss_compiles',
+THEOREMS = ['C15_frozen', 'C15_frozen_requests', 'C15_writes_refused', 'C15_hits_served', 'C15_hits_served_always', 'C15_concurrent_lookups_served', 'C15_lookups_never_deadlock', 'C15_miss_compiles',
             'C15_mtime_touched', 'C15_rw_open_evicts', 'C15_mode_effective', 'C15_env_overrides_own_key_only',
             'C15_configured_read_only_frozen']
 ASSUMPTIONS = [
@@ -106,6 +106,10 @@ def ro_monitor(case, out):
         return ['malformed implementation output']
     prev = None
     for i, obs in enumerate(out):
+        if isinstance(obs, list) and obs and obs[0] == b'hung':
+            vs.append('item %d %s (%s): hung: the storage call did not return within 5 s — the request would be neither '
+                      'served nor compiled' % (i, items[i - 1] if i else None, 'READ_ONLY' if rw == 0 else 'READ_WRITE'))
+            break
         if not isinstance(obs, list) or (obs and obs[0] == b'panic') or len(obs) != 7:
             vs.append('item %d: the cache panicked or printed nothing' % i)
             break
@@ -345,6 +349,12 @@ def conc_monitor(case, out):
         return ['malformed implementation output: %s' % (out,)]
     burst, again, same = out
     vs = []
+    for phase, answers in (('simultaneous', burst), ('repeated', again)):
+        for i, a in enumerate(answers):
+            if a in (b'hung', b'panic'):
+                vs.append('%s lookup %d %s: %s: no answer within 5 s' % (phase, i, lookups[i], a.decode()))
+    if vs:
+        return vs
     present = {f[0]: f[1] for f in files}
     fits = sum(present.values()) <= cap
     for phase, answers in (('issued simultaneously right after the read-only cache was started', burst),
@@ -477,12 +487,16 @@ class _E2E:
                               'SCCACHE_CACHED_CONF': os.path.join(work, 'cached-config'),
                               'HOME': work, 'XDG_CACHE_HOME': os.path.join(work, 'xdg')})
 
-    def run(self, args, env=None, cwd=None):
+    def run(self, args, env=None, cwd=None, timeout=20):
+        """rc is None when the command did not return within [timeout] seconds (it is killed)"""
         import subprocess
         e = dict(self.base_env)
         if env:
             e.update(env)
-        p = subprocess.run(args, env=e, cwd=cwd or self.src, stdout=subprocess.PIPE, stderr=subprocess.PIPE, timeout=120)
+        try:
+            p = subprocess.run(args, env=e, cwd=cwd or self.src, stdout=subprocess.PIPE, stderr=subprocess.PIPE, timeout=timeout)
+        except subprocess.TimeoutExpired:
+            return None, b'', b'no answer within %d s' % timeout
         return p.returncode, p.stdout, p.stderr
 
     def start(self, env):
@@ -495,8 +509,8 @@ class _E2E:
         import os
         import signal
         import time
-        self.run([self.sccache, '--stop-server'], self.server_env)
-        for _ in range(50):
+        self.run([self.sccache, '--stop-server'], self.server_env, timeout=10)
+        for _ in range(30):
             if not _server_pids(self.port):
                 return
             time.sleep(0.1)
@@ -508,7 +522,7 @@ class _E2E:
 
     def stats(self):
         import json
-        rc, so, se = self.run([self.sccache, '--show-stats', '--stats-format', 'json'], self.server_env)
+        rc, so, se = self.run([self.sccache, '--show-stats', '--stats-format', 'json'], self.server_env, timeout=10)
         try:
             return json.loads(so.decode())['stats']
         except Exception:
@@ -603,10 +617,20 @@ def extra(rep, known):
             ('config file rw_mode=READ_ONLY, smaller size', {'SCCACHE_CONF': conf}, conf_text(e.cache, small), False),
             ('config file rw_mode=READ_ONLY + SCCACHE_DIR in the environment (S20)', {'SCCACHE_CONF': conf, 'SCCACHE_DIR': e.cache}, conf_text(other, big), True),
         ]
+        # the log level is part of the configuration: any trace directive (for any module) raises the global
+        # level, and then the arguments of every trace!() in the request path are evaluated
+        ro_env = {'SCCACHE_DIR': e.cache, 'SCCACHE_LOCAL_RW_MODE': 'READ_ONLY'}
+        slog = os.path.join(work, 'server.log')
+        scenarios += [
+            ('env READ_ONLY, size fits, SCCACHE_LOG=trace', dict(ro_env, SCCACHE_CACHE_SIZE=str(big), SCCACHE_LOG='trace', SCCACHE_ERROR_LOG=slog), None, True),
+            ('config file rw_mode=READ_ONLY, SCCACHE_LOG=sccache::server=trace', {'SCCACHE_CONF': conf, 'SCCACHE_LOG': 'sccache::server=trace', 'SCCACHE_ERROR_LOG': slog}, conf_text(e.cache, big), True),
+            ('env READ_ONLY, size smaller than the cache, SCCACHE_LOG=debug,sccache::cache=trace', dict(ro_env, SCCACHE_CACHE_SIZE=str(small), SCCACHE_LOG='debug,sccache::cache=trace', SCCACHE_ERROR_LOG=slog), None, False),
+        ]
         for title, env, ctext, fits in scenarios:
             if ctext is not None:
                 open(conf, 'w').write(ctext)
             e.start(env)
+            hung = False
             before = e.stats()
             reqs = [
                 ('hit a.c', 'a', {}, (), True),
@@ -625,6 +649,11 @@ def extra(rep, known):
                 rc, so, se = e.compile(n + '.c', o, cenv, flags)
                 nreq += 1
                 rep.count('e2e.request=' + what.split(' ')[0])
+                if rc is None:
+                    violations.append('%s / %s: hung: the request got no answer within 20 s (neither served nor compiled); '
+                                      'requests before it in this session: %s' % (title, what, [r[0] for r in reqs[:reqs.index((what, n, cenv, flags, expect_hit))]]))
+                    hung = True
+                    break
                 grc, gobj, gse = gcc(n, flags)
                 if (rc == 0) != (grc == 0):
                     violations.append('%s / %s: exit status %d, gcc alone %d (%r)' % (title, what, rc, grc, se[-300:]))
@@ -645,6 +674,10 @@ def extra(rep, known):
                     violations.append('%s / %s: an entry of the read-only cache was not served as a hit' % (title, what))
                 if expect_hit and fits and h1 == h0 + 1:
                     rep.count('e2e.hits_served')
+            if hung:
+                e.stop()
+                rep.traces += 1
+                continue
             # header changed: manifest no longer matches -> preprocess, update attempt refused
             hp = os.path.join(e.src, 'hdr.h')
             open(hp, 'w').write('#define H 12\n')
@@ -652,7 +685,9 @@ def extra(rep, known):
             rc, so, se = e.compile('a.c', os.path.join(outd, 'x.o'))
             nreq += 1
             grc, gobj, _ = gcc('a')
-            if rc != 0 or open(os.path.join(outd, 'x.o'), 'rb').read() != gobj:
+            if rc is None:
+                violations.append('%s / changed header: hung: the request got no answer within 20 s' % title)
+            elif rc != 0 or open(os.path.join(outd, 'x.o'), 'rb').read() != gobj:
                 violations.append('%s / changed header: object differs from a direct gcc run' % title)
             open(hp, 'w').write('#define H 11\n')
             os.utime(hp, (old, old))
@@ -671,9 +706,10 @@ def extra(rep, known):
         except Exception:
             pass
         shutil.rmtree(work, ignore_errors=True)
-    rep.legs['e2e'] = dict(cases=nreq, violations=len(violations), scenarios=5)
+    rep.legs['e2e'] = dict(cases=nreq, violations=len(violations), scenarios=8)
     rep.evaluations += nreq
-    rep.rule.append('e2e: 5 read-only configurations (env / file / file+SCCACHE_DIR; size fitting and smaller than the cache) x 8 '
+    rep.rule.append('e2e: 8 read-only configurations (env / file / file+SCCACHE_DIR; size fitting and smaller than the cache; SCCACHE_LOG unset, trace, '
+                    'a trace directive for one module; every request under a 20 s no-answer timeout) x 8 '
                     'gcc requests (hit, hit with preprocessor mode off, miss, miss with preprocessor mode off, compile failure, '
                     'SCCACHE_RECACHE, other flags, changed header) against a cache populated read-write with stale temp files')
     for v in violations[:5]:
